@@ -76,13 +76,13 @@ Definition ts_ok (i o : list sample) : bool :=
   sorted_le (map fst o) && within (first_t i) (last_ot i) o.
 
 (* The property's domain (5m chunks written by Thanos, re-downsampled to 1h): a chunk written by
-   DownsampleRaw at 5m holds at most 706 rows (141 expected samples x 5 one-minute scrapes) and
+   DownsampleRaw at 5m holds at most 720 rows (141 expected samples x 5 one-minute scrapes, plus slack) and
    targetChunkCount(5m -> 1h) is at most (count/12 + 2)/141 + 1: its float estimate of the
    expected number of samples is at most count*5m/1h + 2, and its loop returns the least x with
    expSamples/x <= 140.  Checked on the implementation's values when res = ResLevel2; the
    theorem C38_clamp_noop_in_domain shows that then numChunks <= len(chks). *)
 Definition domain_ok (nc : nat) (ins : list achunk) : bool :=
-  forallb (fun k => Nat.leb (length (olist (k_count k))) 706) ins
+  forallb (fun k => Nat.leb (length (olist (k_count k))) 720) ins
   && (Z.of_nat nc <=? (Z.of_nat (length (series k_count ins)) / 12 + 2) / 141 + 1).
 
 (* correspondence: the model reproduces the implementation's output, and (for 5m -> 1h) the
